@@ -33,6 +33,10 @@ import PvModel.Props.C24First
 #print axioms Pv.C24_member_one_per_position
 #print axioms Pv.C24_member1_one_per_value
 #print axioms Pv.C24_append_functional
+#print axioms Pv.C24_increasing_bounded
+#print axioms Pv.C24_zip2_length
+#print axioms Pv.C24_append_one_per_split
+#print axioms Pv.C24_append_splits_disjoint
 #print axioms Pv.C24_listLen_literal
 #print axioms Pv.C24_count_start
 #print axioms Pv.C24_first
